@@ -227,6 +227,62 @@ theorem main_line_le_4096 (f : LenFacts) (ht : f.tsDigits ≤ 10) (count entries
   have e : b64len (10 + 1 + b64len (1821 + 16) + 1 + 32) ≤ 3400 := by decide
   omega
 
+/-! #### the codec's ceiling on the encoded value (fix F17): the bound without any hypothesis on the content -/
+
+theorem valueLen_le (f : LenFacts) (gob G : Nat) (hg : gob ≤ G) (ht : f.tsDigits ≤ 10) :
+    valueLen f gob ≤ b64len (10 + 1 + b64len (G + 16) + 1 + 32) := by
+  unfold valueLen
+  have e : gob + (if f.encrypted then 16 else 0) ≤ G + 16 := by split <;> omega
+  have h1 := b64len_mono e
+  exact b64len_mono (by omega)
+
+/-- **C18, any content.** A cookie is emitted only if its encoded value is within the codec's ceiling; name (≤ 22 bytes), `=`
+    and attributes (≤ 94 bytes) then keep the whole line within 4096 bytes — whatever the session holds (e-mail claims and
+    remembered URIs of any length included). -/
+theorem line_le_of_fits (f : LenFacts) (ceiling nameLen gob : Nat) (hpos : 0 < ceiling) (hc : ceiling + 117 ≤ 4096)
+    (hname : nameLen ≤ 22) (h : fits ceiling f gob = true) : lineLen f nameLen gob ≤ 4096 := by
+  unfold fits at h
+  have hv : valueLen f gob ≤ ceiling := by
+    rcases Bool.or_eq_true _ _ ▸ h with h0 | h1
+    · have : ceiling = 0 := by simpa using h0
+      omega
+    · simpa using h1
+  unfold lineLen attrsLen
+  split <;> omega
+
+/-- within the domain the handler produces, the ceiling is not reached, so `Save` does not fail: chunks and whole tokens of at
+    most `maxCookieSize ≤ 2000` bytes, the main cookie with an e-mail of at most 320 and a URI of at most 1024 bytes -/
+theorem chunk_fits (f : LenFacts) (ht : f.tsDigits ≤ 10) (ceiling n : Nat) (hc : 3810 ≤ ceiling) (hn : n ≤ 2000) :
+    fits ceiling f (chunkGob n) = true := by
+  have hg := chunkGob_le n hn
+  have := valueLen_le f (chunkGob n) 2062 (by omega) ht
+  have e : b64len (10 + 1 + b64len (2062 + 16) + 1 + 32) ≤ 3760 := by decide
+  unfold fits; simp only [Bool.or_eq_true, decide_eq_true_eq]; right; omega
+
+theorem whole_fits (f : LenFacts) (ht : f.tsDigits ≤ 10) (ceiling n : Nat) (hc : 3810 ≤ ceiling) (hn : n ≤ 2000) :
+    fits ceiling f (wholeGob n) = true := by
+  have hg := wholeGob_le n hn
+  have := valueLen_le f (wholeGob n) 2092 (by omega) ht
+  have e : b64len (10 + 1 + b64len (2092 + 16) + 1 + 32) ≤ 3810 := by decide
+  unfold fits; simp only [Bool.or_eq_true, decide_eq_true_eq]; right; omega
+
+theorem main_fits (f : LenFacts) (ht : f.tsDigits ≤ 10) (ceiling count entries em inc : Nat) (hc : 3810 ≤ ceiling)
+    (hcount : count < 128) (hem : em ≤ 320) (hinc : inc ≤ 1024) (he : entries ≤ mainEntries em inc) :
+    fits ceiling f (gobMap count entries) = true := by
+  have h1 := mainEntries_le em inc hem hinc
+  have h2 := gobMap_le count entries hcount (by omega)
+  have := valueLen_le f (gobMap count entries) 1821 (by omega) ht
+  have e : b64len (10 + 1 + b64len (1821 + 16) + 1 + 32) ≤ 3400 := by decide
+  unfold fits; simp only [Bool.or_eq_true, decide_eq_true_eq]; right; omega
+
+/-- before fix F17 (ceiling 4096 on the value alone): a 2 100-character e-mail in a three-field main cookie is written as a line of more than 4096 bytes -/
+example : fits 4096 ⟨true, false, 10⟩ (gobMap 3 ((ifaceStr 13 + ifaceBool) + (ifaceStr 10 + ifaceInt 5) + (ifaceStr 5 + ifaceStr 2100))) = true ∧
+    lineLen ⟨true, false, 10⟩ 15 (gobMap 3 ((ifaceStr 13 + ifaceBool) + (ifaceStr 10 + ifaceInt 5) + (ifaceStr 5 + ifaceStr 2100))) > 4096 := by
+  decide
+/-- with the ceiling of the fix the same content is not written -/
+example : fits 3968 ⟨true, false, 10⟩ (gobMap 3 ((ifaceStr 13 + ifaceBool) + (ifaceStr 10 + ifaceInt 5) + (ifaceStr 5 + ifaceStr 2100))) = false := by
+  decide
+
 /-- the unfixed tree: a 2 050-byte request URI in the main cookie already exceeds the limit -/
 example : lineLen ⟨false, false, 10⟩ 15 (gobMap 3 ((ifaceStr 4 + ifaceStr 36) + (ifaceStr 5 + ifaceStr 44) + (ifaceStr 13 + ifaceStr 2050))) > 4096 := by
   decide
